@@ -12,7 +12,9 @@ D4 front-ends: ci == ci_wilson; Stats::ci == ci(population, successes); ci_true 
    FromIterator / extend / extend_if are folds (n,k) += (1, [success]) with the predicate's
    polarity part of the step; ci_wilson_ratio passes round(r*n) (not a truncation).
 D5 is_significant(n,k) == n > 30 and k > 5 and n-k > 5.
-U: bounds within [0,1] (analytic), sub-ulp float effects."""
+D6 unit interval: every finite Wilson bound lies in [0,1] on the accepted domain (sign certificates over the
+   reals, n = k + m, either sign of z for the one-sided kinds).
+U: sub-ulp float effects."""
 from fractions import Fraction
 
 from .. import terms as T
@@ -25,6 +27,7 @@ from ..realmode import Domain, prune, quantile_hook
 from ..statsmodel import by_ref
 from ..symex import Summarizer, Unsupported
 from ..types import RESULT
+from ..exact import inexact_side
 from ..zones import linearize, holds, box_bound, points, NotLinear, sat, lin
 
 PID = 'C02'
@@ -115,6 +118,7 @@ def producer(chk, facts, nf, im, cm, fn, method, label, sfx, subst=None, make_ar
         # split residual guards into integer-linear and other literals
         rows = []
         und = None
+        inexact = set()
         for p, residual in feas:
             if p.unknowns:
                 und = 'unmodelled callee %s' % p.unknowns[0][0]
@@ -125,6 +129,10 @@ def producer(chk, facts, nf, im, cm, fn, method, label, sfx, subst=None, make_ar
                     continue
                 try:
                     lins.append(linearize(nf, atom, pol, ('n', 'k'), positive=('n',)))
+                    # a literal that the table reads as an integer constraint must be *computed* exactly
+                    bad_side = inexact_side(atom)
+                    if bad_side is not None:
+                        inexact.add('%s  (rounded operand: %s)' % (T.show(atom)[:90], T.show(bad_side)[:60]))
                 except NotLinear:
                     other.append((atom, pol))
             rows.append((p, lins, other))
@@ -164,8 +172,11 @@ def producer(chk, facts, nf, im, cm, fn, method, label, sfx, subst=None, make_ar
         B = 'exact'
         chk.ob(key + ':domain', 'zones', '%s(%s) accepts exactly its documented domain (%d satisfiable path x region pairs, exact zone satisfiability)' % (label, kname, ncell),
                bad is None, bad or '', where, sample={'fn': label, 'kind': kname, 'cells': ncell, 'box': B})
+        chk.ob(key + ':exact-guards', 'E9 exactness', '%s(%s): every domain guard is computed without rounding (counts compared as counts), so boundary counts are classified as the table says' % (label, kname),
+               not inexact, '; '.join(sorted(inexact)[:2]), where)
         # formula + kind on the accepted region
         probs = []
+        lohi = None
         okp = [rows[i] for i in sorted(ok_rows)]
         oks = [(p, other) for p, lins, other in okp if p.is_ret() and unwrap_ok(p.ret) is not None]
         if len(oks) != 1:
@@ -177,6 +188,7 @@ def producer(chk, facts, nf, im, cm, fn, method, label, sfx, subst=None, make_ar
                 probs.append('result is not a two-sided interval: %s' % T.show(p.ret)[:120])
             else:
                 _, lo, hi = dec
+                lohi = (lo, hi)
                 exp_lo = T.op('sub', centre, span) if kind in ('two', 'upper') else F0
                 exp_hi = T.op('add', centre, span) if kind in ('two', 'lower') else F1
                 try:
@@ -208,6 +220,68 @@ def producer(chk, facts, nf, im, cm, fn, method, label, sfx, subst=None, make_ar
         chk.ob(key + ':formula', 'E4', '%s(%s): bounds are the %s formula of the statement with the %s kind table' % (label, kname, method, kname),
                not probs, '; '.join(probs[:3]), where,
                sample={'fn': label, 'kind': kname, 'centre': T.show(centre)[:120], 'span': T.show(span)[:160]})
+        # integer arithmetic behind the formula: every overflow assertion that was assumed away on the Ok path
+        # must be impossible on the accepted domain (n - k with k <= n is; a product of two counts is not)
+        from ..overflow import undischarged
+        ovp = []
+        for p_, lins_, other_ in okp:
+            if not (p_.is_ret() and unwrap_ok(p_.ret) is not None):
+                continue
+            for flag, wh in undischarged(p_):
+                if flag[0] == 'op' and flag[1] == 'ovf_sub':
+                    try:
+                        bad_ = linearize(nf, T.op('lt', flag[2][0], flag[2][1]), True, ('n', 'k'), positive=('n',))
+                        if not sat(base + regions[3][1] + lins_ + [bad_]):
+                            continue
+                    except NotLinear:
+                        pass
+                ovp.append('%s at %s' % (T.show(flag)[:80], wh))
+        chk.ob(key + ':int-arith', 'zones', '%s(%s): no integer operation on the accepted path can overflow for admissible counts (else the value is not the real-arithmetic one)' % (label, kname),
+               not ovp, '; '.join(sorted(set(ovp))[:3]), where)
+        # "they lie in [0,1]": sign certificates for the code's own finite bounds over the accepted domain,
+        # with n = k + m (m = failures), k >= lim, m >= lim, and the critical value of either sign for the
+        # one-sided kinds (levels below 1/2) - decided over the reals by nf.decide_sign_sqrt
+        if method == 'wilson' and len(oks) == 1 and lohi is not None:
+            lo, hi = lohi
+            unit_interval(chk, nf, key, where, label, kname, kind, z, lo, hi, lim)
+
+
+def unit_interval(chk, nf, key, where, label, kname, kind, z, lo, hi, lim):
+    from ..nf import decide_sign_sqrt
+    M = T.sym('m')
+    sub = {N: T.op('add', K, M)}
+    probs = []
+    try:
+        zat = set(a for m_ in nf.of_term(z).num for a, e in m_)
+        if len(zat) != 1:
+            raise NotReal('critical value is not one atom')
+        zat = zat.pop()
+        saved = set(nf.nonneg)
+        nf.nonneg.add('m')
+        try:
+            signs = [(Fraction(0), None, False, True)] if kind == 'two' else [(Fraction(0), None, False, True), (None, Fraction(0), True, False)]
+            for zr in signs:
+                rg = {'k': (Fraction(lim), None, False, True), 'm': (Fraction(lim), None, False, True), zat: zr}
+                lo_, hi_ = nf.of_term(T.subst(lo, sub)), nf.of_term(T.subst(hi, sub))
+                one = nf.of_term(F1)
+                goals = []
+                if kind in ('two', 'upper'):
+                    goals += [('lower bound >= 0', lo_), ('lower bound <= 1', nf.sub(one, lo_))]
+                if kind in ('two', 'lower'):
+                    goals += [('upper bound >= 0', hi_), ('upper bound <= 1', nf.sub(one, hi_))]
+                if kind == 'two':
+                    goals.append(('lower <= upper', nf.sub(hi_, lo_)))
+                for what, rf in goals:
+                    sg = decide_sign_sqrt(nf, rf, rg)
+                    if sg not in ('+', '0+', '0'):
+                        probs.append('%s not certified for z %s 0 (sign %s)' % (what, '>=' if zr[0] is not None else '<=', sg))
+        finally:
+            nf.nonneg.clear()
+            nf.nonneg.update(saved)
+    except NotReal as e:
+        probs.append('not a real formula: %s' % e)
+    chk.ob(key + ':unit-interval', 'E4 sign', '%s(%s): the finite bounds lie in [0,1] on the accepted domain (sign certificate over the reals, either sign of the critical value for one-sided kinds)' % (label, kname),
+           not probs, '; '.join(probs[:3]), where)
 
 
 def run(chk, ctx):
@@ -575,4 +649,4 @@ def _lit(t):
     return canon_literal(t)
 
 
-ASSUMPTIONS = ['floats as reals; n >= 1 (n = 0 under C11); level in (0,1)', 'bounds within [0,1] not decided (analytic)']
+ASSUMPTIONS = ['floats as reals; n >= 1 (n = 0 under C11); level in (0,1)', 'bounds within [0,1]: decided over the reals (sign certificate), not for float rounding']
